@@ -8,6 +8,7 @@ import (
 	"net/url"
 	"path"
 	"strings"
+	"sync"
 	"time"
 
 	"github.com/AdguardTeam/AdGuardDNS/internal/agdcache"
@@ -105,6 +106,10 @@ type Filter struct {
 	metrics  internal.Metrics
 	resCache agdcache.Interface[internal.CacheKey, *cacheItem]
 
+	// refreshMu makes sure that results computed from the previous hashes are
+	// not cached after a refresh.
+	refreshMu *sync.RWMutex
+
 	id      internal.ID
 	repIP   netip.Addr
 	repFQDN string
@@ -135,6 +140,8 @@ func NewFilter(c *FilterConfig) (f *Filter, err error) {
 		errColl:  c.ErrColl,
 		metrics:  c.Metrics,
 		resCache: resCache,
+
+		refreshMu: &sync.RWMutex{},
 
 		id: id,
 	}
@@ -192,6 +199,11 @@ func (f *Filter) FilterRequest(
 	} else if !filterable {
 		return nil, nil
 	}
+
+	// Make sure that a refresh does not reset the hashes and clear the cache
+	// between the matching and the caching of its result.
+	f.refreshMu.RLock()
+	defer f.refreshMu.RUnlock()
 
 	var matched string
 	sub := hashableSubdomains(host)
@@ -409,6 +421,9 @@ func (f *Filter) refresh(ctx context.Context, acceptStale bool) (err error) {
 		// Don't wrap the error, because it's informative enough as is.
 		return err
 	}
+
+	f.refreshMu.Lock()
+	defer f.refreshMu.Unlock()
 
 	count, err = f.hashes.Reset(text)
 	if err != nil {
